@@ -1471,10 +1471,10 @@ func (e *executor) executeRowsShard(_ context.Context, index string, fieldName s
 	}
 
 	limit := int(^uint(0) >> 1)
-	if lim, hasLimit, err := c.UintArg("limit"); err != nil {
+	lim, hasLimit, err := c.UintArg("limit")
+	if err != nil {
 		return nil, errors.Wrap(err, "getting limit")
 	} else if hasLimit {
-		filters = append(filters, filterWithLimit(lim))
 		limit = int(lim)
 	}
 
@@ -1484,7 +1484,12 @@ func (e *executor) executeRowsShard(_ context.Context, index string, fieldName s
 			continue
 		}
 
-		viewRows := frag.rows(start, filters...)
+		// The limit filter counts down as it admits rows: every view needs its own.
+		viewFilters := filters
+		if hasLimit {
+			viewFilters = append(filters[:len(filters):len(filters)], filterWithLimit(lim))
+		}
+		viewRows := frag.rows(start, viewFilters...)
 		rowIDs = rowIDs.merge(viewRows, limit)
 	}
 
